@@ -155,10 +155,10 @@ theorem Cfg.front_W (g : Cfg) (us : List Rec) : (g.front us).W = serAll us ++ g.
 theorem Cfg.OK.front {g : Cfg} (ok : g.OK) {us : List Rec} (hu : LeftOK (alignedBufsize g.b) us) : (g.front us).OK := by
   refine ⟨wf_idle ok.wf us hu.1, ok.pairs, noiseFits_app hu.2 ok.noise, ?_⟩
   cases ok.shape with
-  | responder hr hb hf hp hX2 hX hU hOt hrv hs hfu => exact .responder hr hb hf hp hX2 hX hU hOt hrv hs hfu
+  | responderU hr hb hf hp hX2 hX hU hOt hrv hs hfu => exact .responderU hr hb hf hp hX2 hX hU hOt hrv hs hfu
   | authorizer hr hX hU hOt hrv hs hfu => exact .authorizer hr hX hU hOt hrv hs hfu
-  | filter hr hb hb2 hf hf2 hp hp2 hX2 hX hU hOt hrv hs hfu =>
-    exact .filter hr hb hb2 hf hf2 hp hp2 hX2 hX hU hOt hrv hs hfu
+  | filterU hr hb hb2 hf hf2 hp hp2 hX2 hX hU hOt hrv hs hfu =>
+    exact .filterU hr hb hb2 hf hf2 hp hp2 hX2 hX hU hOt hrv hs hfu
 
 theorem UOK.front {g : Cfg} (ok : UOK g) {us : List Rec} (hu : LeftOK (alignedBufsize g.b) us) : UOK (g.front us) :=
   ⟨wf_idle ok.wf us hu.1, ok.role, ok.pairs, noiseFits_app hu.2 ok.noise, ok.hX, ok.hU, ok.hOt, ok.hrv, ok.mode, ok.hfu⟩
